@@ -5,7 +5,7 @@ import os
 import sys
 
 from translate import (translate_function, TranslateError, HEADER_R, HEADER_Q, write_if_changed, FnTranslator,
-                       Translated, find_function)
+                       Translated, find_function, emit)
 
 REPO = os.environ.get('ZEPID_REPO', '/repo')
 GEN = os.path.join(os.path.dirname(os.path.dirname(os.path.abspath(__file__))), 'coq', 'gen')
@@ -217,6 +217,79 @@ class _IndA(ast.NodeTransformer):
         return n
 
 
+class RawTarget:
+    """a target emitted as ready-made Coq text (list-level code the scalar IR does not cover)"""
+    def __init__(self, name, q_text, inputs, returns):
+        self.name, self.q_text, self.inputs, self.returns = name, q_text, inputs, returns
+
+    def coq(self):
+        return '(* %s: rational only, see the _Q file *)' % self.name
+
+    def coq_q(self):
+        return self.q_text
+
+    def sidecar(self):
+        return {'name': self.name, 'inputs': self.inputs, 'returns': self.returns, 'qobs': self.returns, 'has_a': False,
+                'uses_zq': False, 'guards': 0}
+
+
+def pool_targets():
+    """calculate_joint_estimate: for each `method` branch, WHICH numpy aggregate is taken of the point estimates, and the
+    elementwise expression (in var_est, point_est, single_point) whose aggregate is the pooled variance."""
+    CF = os.path.join(REPO, 'zepid/causal/doublyrobust/crossfit.py')
+    fn = find_function(ast.parse(open(CF).read()), 'calculate_joint_estimate')
+    if [a.arg for a in fn.args.args] != ['point_est', 'var_est', 'method']:
+        raise TranslateError('calculate_joint_estimate signature changed')
+    branches = {}
+
+    def walk_if(node):
+        t = node.test
+        if not (isinstance(t, ast.Compare) and ast.unparse(t.left) == 'method' and len(t.ops) == 1 and isinstance(t.ops[0], ast.Eq)
+                and isinstance(t.comparators[0], ast.Constant)):
+            raise TranslateError('unexpected test %s in calculate_joint_estimate' % ast.unparse(t))
+        branches[t.comparators[0].value] = node.body
+        if len(node.orelse) == 1 and isinstance(node.orelse[0], ast.If):
+            walk_if(node.orelse[0])
+        elif not (len(node.orelse) == 1 and isinstance(node.orelse[0], ast.Raise)):
+            raise TranslateError('unexpected else branch in calculate_joint_estimate')
+    ifs = [s for s in fn.body if isinstance(s, ast.If) and 'method' in ast.unparse(s.test)]
+    if len(ifs) != 1:
+        raise TranslateError('expected one if-chain on `method` in calculate_joint_estimate')
+    walk_if(ifs[0])
+    ret = fn.body[-1]
+    if not (isinstance(ret, ast.Return) and ast.unparse(ret.value) == '(single_point, single_point_var)'):
+        raise TranslateError('calculate_joint_estimate no longer returns (single_point, single_point_var)')
+    if set(branches) != {'median', 'mean'}:
+        raise TranslateError('pooling methods are %r' % sorted(branches))
+    out = []
+    AGG = {'median': 'median', 'mean': 'meanq'}
+    for method, body in sorted(branches.items()):
+        if len(body) != 2 or not all(isinstance(b, ast.Assign) and len(b.targets) == 1 for b in body):
+            raise TranslateError('branch %s of calculate_joint_estimate is not two assignments' % method)
+        a1, a2 = body
+        if ast.unparse(a1.targets[0]) != 'single_point' or ast.unparse(a2.targets[0]) != 'single_point_var':
+            raise TranslateError('branch %s assigns %s, %s' % (method, ast.unparse(a1.targets[0]), ast.unparse(a2.targets[0])))
+
+        def agg_of(v):
+            if not (isinstance(v, ast.Call) and isinstance(v.func, ast.Attribute) and isinstance(v.func.value, ast.Name)
+                    and v.func.value.id == 'np' and v.func.attr in AGG and len(v.args) == 1 and not v.keywords):
+                raise TranslateError('aggregate %s' % ast.unparse(v))
+            return AGG[v.func.attr], v.args[0]
+        g1, arg1 = agg_of(a1.value)
+        if ast.unparse(arg1) != 'point_est':
+            raise TranslateError('pooled point is an aggregate of %s' % ast.unparse(arg1))
+        g2, arg2 = agg_of(a2.value)
+        tr = FnTranslator('pool_%s_term' % method, ['point_est', 'single_point', 'var_est'])
+        e = tr.expr(arg2)
+        term = emit(e, 'Q')
+        txt = ('Definition pool_%s_term_Q (v_point_est v_single_point v_var_est : Q) : Q :=\n  %s.\n'
+               'Definition pool_%s_Q (pts vars : list Q) : Q * Q :=\n'
+               '  let c := %s pts in\n  (c, %s (map (fun pv => pool_%s_term_Q (fst pv) c (snd pv)) (combine pts vars))).'
+               % (method, term, method, g1, g2, method))
+        out.append(RawTarget('pool_' + method, txt, ['pts', 'vars'], ['point', 'variance']))
+    return out
+
+
 GROUPS = {
     'tmle': tmle_targets,
     'calc': calc_targets,
@@ -224,6 +297,7 @@ GROUPS = {
     'weights': weights_targets,
     'aipw': aipw_targets,
     'ic': ic_targets,
+    'pool': pool_targets,
 }
 
 
@@ -238,7 +312,7 @@ def generate(groups=None):
         try:
             ts = fn()
             r = HEADER_R + '\n' + '\n\n'.join(t.coq() for t in ts) + '\n'
-            q = HEADER_Q + '\n' + '\n\n'.join(t.coq_q() for t in ts) + '\n'
+            q = HEADER_Q + ('From Zepid Require Import Base.QSum Base.QAgg.\n' if g == 'pool' else '') + '\n' + '\n\n'.join(t.coq_q() for t in ts) + '\n'
             side[g] = [t.sidecar() for t in ts]
             err = None
         except (TranslateError, SyntaxError, OSError) as e:
